@@ -548,6 +548,9 @@ impl Runtype {
     }
     pub fn all_of(all_of_items: Vec<Runtype>) -> Self {
         match all_of_items.len() {
+            // the intersection of no types is the top type (an empty AllOf node would validate as
+            // 'every member accepts', i.e. anything, but prints as `()`)
+            0 => Self::any(),
             1 => all_of_items
                 .into_iter()
                 .next()
